@@ -9,6 +9,8 @@ def dispatch (engine : String) (c i : List String) : Option Res :=
   match engine with
   | "gap" => gapEngine c i
   | "width" => widthEngine c i
+  | "cache" => cacheEngine c i
+  | "dom" => domEngine c i
   | _ => none
 
 partial def loop (h : IO.FS.Stream) (out : IO.FS.Stream) : IO Unit := do
